@@ -148,7 +148,10 @@ def yaml_stream(docs, rng=None, style=None):
     return '---\n'.join(parts)
 
 
-class CoreLoader(yaml.SafeLoader):
+_BaseLoader = getattr(yaml, 'CSafeLoader', yaml.SafeLoader)
+
+
+class CoreLoader(_BaseLoader):
     """PyYAML restricted to the YAML 1.2 core schema (PyYAML's default is YAML 1.1)."""
 
 
@@ -185,7 +188,7 @@ CoreLoader.add_constructor('tag:yaml.org,2002:float', _core_float)
 
 
 def parse_yaml_stream(text, core=True):
-    return list(yaml.load_all(text, Loader=CoreLoader if core else yaml.SafeLoader))
+    return list(yaml.load_all(text, Loader=CoreLoader if core else _BaseLoader))
 
 
 # ---------------------------------------------------------------------------
